@@ -188,7 +188,7 @@ package packfile
 //gvc:  ensures complete: err == nil ==> now(mw).#wlen == w0 + size
 //gvc:  ensures consumed: err == nil ==> deltaBuf.#pos == deltaBuf.#n
 //gvc:  ensures minsize: err == nil ==> deltaBuf.#n - old(deltaBuf.#pos) >= 4
-//gvc:  sink DecodeLEB128FromReader#2 requires [C06] srcsize: typeis(base, "bytes.Reader") ==> srcSz == base.#n
+//gvc:  sink DecodeLEB128FromReader requires [C06] srcsize: calls("DecodeLEB128FromReader") >= 1 && typeis(base, "bytes.Reader") ==> srcSz == base.#n
 //gvc:end
 
 // ReaderFromDelta (lazy streaming applier; its goroutine is verified from the
@@ -446,4 +446,20 @@ package packfile
 //gvc:  requires entries: forall(i, 0, len(idx.entries), 0 <= idx.entries[i])
 //gvc:  ensures genuine: l >= 16 ==> 0 <= srcOffset && srcOffset + l <= len(src) && tgtOffset + l <= len(tgt) && forall(k, 0, l, src[srcOffset + k] == tgt[tgtOffset + k])
 //gvc:  ensures short: l < 16 && l > 0 ==> tgtOffset + l <= len(tgt)
+//gvc:end
+
+// getMemoryObject (C53: no input makes a reader loop or recurse without
+// bound). Resolving a delta's base re-enters this function through get /
+// getByOffset; the chain it follows comes from the pack and, for REF deltas,
+// from the index, so it may be arbitrarily long or circular. The recursion is
+// entered only with the depth counter raised by one and within git's limit of
+// 4095 links, which bounds its depth for every input.
+//gvc:func (*Packfile).getMemoryObject
+//gvc:  props C53 C09
+//gvc:  theory int
+//gvc:  opt coarse
+//gvc:  opt frame args
+//gvc:  requires depth: p.deltaDepth >= 0
+//gvc:  sink get requires bounded: p.deltaDepth == old(p.deltaDepth) + 1 && p.deltaDepth <= 4095
+//gvc:  sink getByOffset requires bounded: p.deltaDepth == old(p.deltaDepth) + 1 && p.deltaDepth <= 4095
 //gvc:end
